@@ -147,6 +147,8 @@ def repeat(s, args):                                    # 22.1.3.18
         raise RangeError_("Invalid count value")
     if len(s) * n > STRING_LIMIT:
         raise RangeError_("Invalid string length")
+    if s == "":
+        return ""
     return s * n
 
 
